@@ -231,8 +231,14 @@ pub fn run(ctx: &mut Ctx) {
             break;
         }
         let mut next = vec![];
+        // lengths up to 3: the whole alphabet; length 4 (thorough): the first 30 events (documents, requests,
+        // responses, malformed messages) — 49^4 sequences would not finish
+        let width = if len >= 4 { alpha.len().min(30) } else { alpha.len() };
         for h in &level {
-            for e in 0..alpha.len() {
+            if len >= 4 && h.iter().any(|e| *e >= width) {
+                continue;
+            }
+            for e in 0..width {
                 let mut n = h.clone();
                 n.push(e);
                 next.push(n);
